@@ -485,9 +485,12 @@ func ruleComparersConsultTheirData(c *core.Ctx) {
 			}
 			done[o] = true
 			written := map[string]token.Pos{}
+			// a write that is tied to the verdict without the field being read back: beside it (same statement list) a
+			// local the verdict depends on is set — the "something differs" flag — or the value written is itself such a local
+			tied := map[string]bool{}
 			ast.Inspect(d.Body, func(m ast.Node) bool {
 				if as, ok := m.(*ast.AssignStmt); ok {
-					for _, l := range as.Lhs {
+					for li, l := range as.Lhs {
 						base := l
 						if ix, ok := ast.Unparen(base).(*ast.IndexExpr); ok {
 							base = ix.X
@@ -495,6 +498,35 @@ func ruleComparersConsultTheirData(c *core.Ctx) {
 						if se, ok := ast.Unparen(base).(*ast.SelectorExpr); ok && identObj(info, se.X) == o {
 							if _, seen := written[se.Sel.Name]; !seen {
 								written[se.Sel.Name] = as.Pos()
+								tied[se.Sel.Name] = true
+							}
+							thisTied := false
+							if li < len(as.Rhs) {
+								ast.Inspect(as.Rhs[li], func(x ast.Node) bool {
+									if id, ok := x.(*ast.Ident); ok && objs[info.Uses[id]] {
+										thisTied = true
+									}
+									return true
+								})
+							}
+							var sibs []ast.Stmt
+							switch b := parent[as].(type) {
+							case *ast.BlockStmt:
+								sibs = b.List
+							case *ast.CaseClause:
+								sibs = b.Body
+							}
+							for _, sb := range sibs {
+								if sa, ok := sb.(*ast.AssignStmt); ok && sa != as {
+									for _, sl := range sa.Lhs {
+										if so := identObj(info, sl); so != nil && objs[so] {
+											thisTied = true
+										}
+									}
+								}
+							}
+							if !thisTied {
+								tied[se.Sel.Name] = false
 							}
 						}
 					}
@@ -503,7 +535,7 @@ func ruleComparersConsultTheirData(c *core.Ctx) {
 			})
 			for f, at := range written {
 				key := d.Name.Name + "/" + o.Name() + "." + f
-				c.Check(fields[o.Name()+"."+f], rule, key, at, "the verdict depends on "+o.Name()+"."+f,
+				c.Check(fields[o.Name()+"."+f] || tied[f], rule, key, at, "the verdict depends on "+o.Name()+"."+f,
 					"the comparer records "+o.Name()+"."+f+" but can still return nil whatever it holds: a difference of that kind is reported as 'unchanged' (no compatibility code is generated, the old layout is read with the new one)")
 			}
 		}
